@@ -107,6 +107,11 @@ func (br *botRunner) UpdateTableState(table *pokertable.Table) error {
 	// The state remains unchanged or is outdated
 	if gs != nil {
 
+		// A state of another hand that is not newer than what has been seen is a late snapshot of an earlier hand
+		if gs.GameID != br.curGameID && br.curGameID != "" && br.lastGameStateTime >= gs.UpdatedAt {
+			return nil
+		}
+
 		// New game
 		if gs.GameID != br.curGameID {
 			br.curGameID = gs.GameID
